@@ -1676,3 +1676,301 @@ def best_rules(run, rule, ast):
             run.violation(rule, "compiler::best|step|%s" % ",".join(k for k in exp if table.get(k) != exp[k]), "the elimination step of best() deviates: %s" % "; ".join(diffs), (f["file"], lp["l"]))
         elif not push_ok:
             run.violation(rule, "compiler::best|append", "a candidate that survived the scan is not appended to the best set exactly when it was not dropped", (f["file"], ob["l"]))
+
+
+# ---------------------------------------------------------------------------
+# (14) slot allocation: which slot is chosen
+
+def _refs(n, did):
+    return any(x.get("k") == "DeclRefExpr" and x["ref"].get("did") == did for x in astq.walk(n))
+
+
+def _members(n):
+    return [x["member"] for x in astq.walk(n) if x.get("k") == "MemberExpr"]
+
+
+def _is_slots_store(n):
+    if n.get("k") != "BinaryOperator" or n.get("op") != "=":
+        return False
+    l = astq.strip(n["c"][0])
+    return l.get("k") == "CXXOperatorCallExpr" and l.get("oop") == "[]" and "slots" in _members(l) and "param" in _members(l)
+
+
+class _Counter:
+    """value of an integer local as `start + k` through straight-line code (n++, ++n, n += c, n = n + c)"""
+
+    def __init__(self, did):
+        self.did = did
+        self.k = 0
+
+    def is_var(self, n):
+        n = astq.strip(n)
+        return n is not None and n.get("k") == "DeclRefExpr" and n["ref"].get("did") == self.did
+
+    def eval(self, n):
+        """-> offset of the value of expression n relative to the loop-entry value, or None; applies side effects"""
+        n = astq.strip(n)
+        if n is None:
+            return None
+        k = n.get("k")
+        if self.is_var(n):
+            return self.k
+        if k == "UnaryOperator" and n.get("op") in ("++", "--") and self.is_var(n["c"][0]):
+            d = 1 if n["op"] == "++" else -1
+            old = self.k
+            self.k += d
+            return old if n.get("postfix") else self.k
+        if k == "CompoundAssignOperator" and n.get("op") in ("+=", "-=") and self.is_var(n["c"][0]):
+            a = astq.affine(n["c"][1])
+            if a is None or set(a) - {1}:
+                raise ValueError("non-constant step")
+            self.k += a.get(1, 0) * (1 if n["op"] == "+=" else -1)
+            return self.k
+        if k == "BinaryOperator" and n.get("op") == "=" and self.is_var(n["c"][0]):
+            v = self.eval(n["c"][1])
+            if v is None:
+                raise ValueError("counter assigned from something else")
+            self.k = v
+            return v
+        if k == "BinaryOperator" and n.get("op") in ("+", "-"):
+            a, b = self.eval(n["c"][0]), None
+            if a is not None:
+                c = astq.affine(n["c"][1])
+                if c is not None and not (set(c) - {1}):
+                    return a + c.get(1, 0) * (1 if n["op"] == "+" else -1)
+            return None
+        return None
+
+    def touches(self, n):
+        return _refs(n, self.did)
+
+
+def alloc_rules(run, rule, ast):
+    """which slot a (method, parameter) gets: tree allocation numbers the parameters of a class consecutively after
+    those of its base and is used only when no class below the root has several bases; lattice allocation takes a
+    slot that is free in the class's used AND reserved sets."""
+    # --- A. tree or lattice
+    for f in by_name(ast, "assign_slots"):
+        byid, parent = astq.index_nodes(f)
+        tcalls = [n for n in astq.walk(f["body"]) if n.get("k") == "CXXMemberCallExpr" and re.search(r"::assign_tree_slots$", n.get("callee") or "")]
+        lcalls = [n for n in astq.walk(f["body"]) if n.get("k") == "CXXMemberCallExpr" and re.search(r"::assign_lattice_slots$", n.get("callee") or "")]
+        if not lcalls:
+            run.broken.append("%s: no call of assign_lattice_slots" % short(f))
+            continue
+        if not tcalls:
+            # lattice allocation for everything is always valid
+            run.instance(rule, "%s: every root class is allocated with the lattice algorithm" % short(f), (f["file"], f["line"]), ok=True)
+            continue
+        for tc in tcalls:
+            arg = astq.strip(tc["c"][1])
+            ifs = _enclosing(parent, tc, ("IfStmt",))
+            if arg.get("k") != "DeclRefExpr" or not ifs:
+                run.broken.append("%s: call of assign_tree_slots not classifiable" % short(f))
+                continue
+            did = arg["ref"]["did"]
+            verdict = None
+            for i in ifs:
+                c = astq.strip(i["cond"])
+                in_then = _in_subtree(i.get("then"), tc)
+                # quantifier over a set of classes with a predicate on the number of direct bases
+                q = [x for x in astq.walk(c) if x.get("k") == "CallExpr" and re.match(r"^std::(find_if|any_of|none_of|all_of|count_if)<", x.get("callee") or "")]
+                if not q:
+                    continue
+                q = q[0]
+                kind = re.match(r"^std::(\w+)<", q["callee"]).group(1)
+                rng = [m for m in _members(q["c"][1]) if m not in ("begin", "cbegin")]
+                rng_e = [m for m in _members(q["c"][2]) if m not in ("end", "cend")]
+                own = _refs(q["c"][1], did) and _refs(q["c"][2], did) and rng == rng_e
+                lam = [x for x in astq.walk(q) if x.get("k") == "LambdaExpr"]
+                pred = None
+                if lam:
+                    for s in lam[0]["lambda"].get("specializations") or []:
+                        body = s if s.get("k") else s.get("body")
+                        for r in astq.walk(body):
+                            if r.get("k") == "ReturnStmt" and r.get("c"):
+                                e = astq.strip(r["c"][0])
+                                if e.get("k") == "BinaryOperator" and "direct_bases" in _members(e["c"][0]) and "size" in _members(e["c"][0]):
+                                    cst = astq.affine(e["c"][1])
+                                    if cst is not None and not (set(cst) - {1}):
+                                        pred = (e["op"], cst.get(1, 0))
+                if pred is None:
+                    run.broken.append("%s: predicate of the tree/lattice decision not recognised" % short(f))
+                    verdict = "broken"
+                    break
+                multi = pred in ((">", 1), (">=", 2))
+                # "no class of the set has several bases" in the form written
+                if kind == "find_if":
+                    top = astq.strip(i["cond"])
+                    eq = top.get("k") == "CXXOperatorCallExpr" and top.get("oop") in ("==", "!=")
+                    none = eq and ((top["oop"] == "==") == in_then)
+                elif kind == "none_of":
+                    none = in_then and astq.strip(i["cond"]) is q or (astq.strip(i["cond"]).get("k") == "CallExpr" and in_then)
+                elif kind == "any_of":
+                    top = astq.strip(i["cond"])
+                    none = (top.get("k") == "UnaryOperator" and top.get("op") == "!" and in_then) or (top.get("k") == "CallExpr" and not in_then)
+                else:
+                    run.broken.append("%s: quantifier %s in the tree/lattice decision not classified" % (short(f), kind))
+                    verdict = "broken"
+                    break
+                okset = own and rng[:1] == ["covariant_classes"]
+                ok = okset and multi and none
+                verdict = ok
+                run.instance(rule, "%s: tree allocation only when no class at or below the root has several direct bases" % short(f), (f["file"], tc["l"]), ok=ok)
+                if not ok:
+                    why = ("the test ranges over `%s`, not over the root's covariant_classes (all classes at or below it)" % (rng[0] if rng else "?")) if not okset else (
+                        "the predicate is `direct_bases.size() %s %d`, not 'several direct bases'" % pred) if not multi else "tree allocation is chosen when some class HAS several bases"
+                    run.violation(rule, "compiler::assign_slots|tree-choice", "%s: consecutive numbering is only collision-free in a tree" % why, (f["file"], tc["l"]))
+                break
+            if verdict is None:
+                run.broken.append("%s: no tree/lattice decision found around the call of assign_tree_slots" % short(f))
+            # roots only, starting at slot 0
+            outer = [i for i in ifs if "direct_bases" in _members(i["cond"]) and not [x for x in astq.walk(i["cond"]) if x.get("k") == "LambdaExpr"]]
+            okroot = False
+            if outer:
+                c = astq.strip(outer[-1]["cond"])
+                if c.get("k") == "BinaryOperator" and c.get("op") == "==" and astq.affine(c["c"][1]) == {} and "size" in _members(c["c"][0]) and _refs(c, did):
+                    okroot = True
+                if c.get("k") == "CXXMemberCallExpr" and (c.get("callee") or "").endswith("::empty") and _refs(c, did):
+                    okroot = True
+            start = astq.affine(tc["c"][2]) if len(tc["c"]) > 2 else None
+            run.instance(rule, "%s: allocation starts at the roots (classes without bases), tree numbering from slot 0" % short(f), (f["file"], tc["l"]), ok=okroot and start == {})
+            if not okroot:
+                run.violation(rule, "compiler::assign_slots|roots", "allocation is not started exactly at the classes without direct bases", (f["file"], tc["l"]))
+            elif start != {}:
+                run.violation(rule, "compiler::assign_slots|tree-start", "tree numbering of a root starts at %s, not 0" % astq.aff_show(start or {}), (f["file"], tc["l"]))
+    # --- B. tree numbering
+    for f in by_name(ast, "assign_tree_slots"):
+        byid, parent = astq.index_nodes(f)
+        base = f["params"][1]["did"]
+        cls = f["params"][0]["did"]
+        stores = [n for n in astq.walk(f["body"]) if _is_slots_store(n)]
+        if len(stores) != 1:
+            run.broken.append("%s: expected one store into method->slots, found %d" % (short(f), len(stores)))
+            continue
+        st = stores[0]
+        loops = _enclosing(parent, st, ("CXXForRangeStmt",))
+        cnts = [d for n in astq.walk(f["body"]) if n.get("k") == "DeclStmt" for d in n["decls"] if d.get("init") is not None and astq.affine(d["init"], env={base: {"base": 1}}) == {"base": 1}]
+        # the counter: a local initialised from the base_slot parameter (or the parameter itself)
+        rhs_refs = [x["ref"]["did"] for x in astq.walk(st["c"][1]) if x.get("k") == "DeclRefExpr" and x["ref"].get("storage") in ("local", "param")]
+        cand = [d["did"] for d in cnts if d["did"] in rhs_refs] or ([base] if base in rhs_refs else [])
+        if len(loops) != 1 or not cand:
+            run.broken.append("%s: numbering loop / counter not recognised" % short(f))
+            continue
+        ctr = _Counter(cand[0])
+        lp = loops[0]
+        okset = _members(lp["range"])[:1] == ["used_by_vp"] and _refs(lp["range"], cls)
+        # one iteration: value stored = entry value, counter advanced by exactly one
+        stored = None
+        try:
+            for s in (lp["body"].get("c") or []):
+                if s is st or _in_subtree(s, st):
+                    if s is not st:
+                        raise ValueError("the store is nested in another statement")
+                    stored = ctr.eval(st["c"][1])
+                elif ctr.touches(s):
+                    inner = astq.strip(s)
+                    if any(x.get("k") == "CXXOperatorCallExpr" and x.get("oop") == "<<" for x in astq.walk(s)) and not any(
+                            x.get("k") in ("UnaryOperator", "CompoundAssignOperator") and x.get("op") in ("++", "--", "+=", "-=") and ctr.is_var(x["c"][0]) for x in astq.walk(s)):
+                        continue        # trace output
+                    if ctr.eval(inner) is None:
+                        raise ValueError("statement on the counter not understood: " + astq.text(inner)[:60])
+        except ValueError as e:
+            run.broken.append("%s: %s" % (short(f), e))
+            continue
+        ok = okset and stored == 0 and ctr.k == 1
+        run.instance(rule, "%s: each parameter of the class gets the next consecutive slot after its base's" % short(f), (f["file"], st["l"]), ok=ok)
+        if not okset:
+            run.violation(rule, "compiler::assign_tree_slots|set", "the numbering loop does not range over the class's used_by_vp", (f["file"], lp["l"]))
+        elif not ok:
+            run.violation(rule, "compiler::assign_tree_slots|numbering", "one iteration stores entry%+d and advances the counter by %d (expected: stores the entry value, advances by one): two parameters share a slot or a slot is skipped" % (stored if stored is not None else 0, ctr.k), (f["file"], st["l"]))
+        # after the loop: table size and the start of the derived classes are the counter
+        after = []
+        seen = False
+        for s in f["body"].get("c") or []:
+            if s is lp:
+                seen = True
+                continue
+            if seen:
+                after.append(s)
+        rs = [n for s in after for n in astq.walk(s) if n.get("k") == "CXXMemberCallExpr" and (n.get("callee") or "").endswith("::resize") and "vtbl" in _members(n["c"][0])]
+        rec = [n for s in after for n in astq.walk(s) if n.get("k") == "CXXMemberCallExpr" and re.search(r"::assign_tree_slots$", n.get("callee") or "")]
+        if len(rs) != 1 or len(rec) != 1:
+            run.broken.append("%s: v-table resize / recursion after the numbering loop not found" % short(f))
+            continue
+        okr = ctr.is_var(rs[0]["c"][1])
+        run.instance(rule, "%s: the v-table holds every slot up to the last one numbered" % short(f), (f["file"], rs[0]["l"]), ok=okr)
+        if not okr:
+            run.violation(rule, "compiler::assign_tree_slots|size", "the v-table is sized `%s`, not the counter after numbering (slots inherited from the bases included)" % astq.text(rs[0]["c"][1])[:60], (f["file"], rs[0]["l"]))
+        rl = _enclosing(parent, rec[0], ("CXXForRangeStmt",))
+        okd = ctr.is_var(rec[0]["c"][2]) and rl and _members(rl[0]["range"])[:1] == ["direct_derived"] and not _enclosing(parent, rec[0], ("IfStmt",))
+        run.instance(rule, "%s: every direct derived class continues numbering after this class's slots" % short(f), (f["file"], rec[0]["l"]), ok=bool(okd))
+        if not okd:
+            run.violation(rule, "compiler::assign_tree_slots|recursion", "derived classes do not (all) continue with the counter after this class's parameters: `%s`" % astq.text(rec[0]["c"][2])[:60], (f["file"], rec[0]["l"]))
+    # --- C. lattice: the slot taken is free in used AND reserved
+    for f in by_name(ast, "assign_lattice_slots"):
+        byid, parent = astq.index_nodes(f)
+        cls = f["params"][0]["did"]
+        stores = [n for n in astq.walk(f["body"]) if _is_slots_store(n)]
+        if len(stores) != 1:
+            run.broken.append("%s: expected one store into method->slots, found %d" % (short(f), len(stores)))
+            continue
+        st = stores[0]
+        sv = astq.strip(st["c"][1])
+        if sv.get("k") != "DeclRefExpr":
+            run.broken.append("%s: the slot stored is not a plain local" % short(f))
+            continue
+        sdid = sv["ref"]["did"]
+        # the search: a test `bits[slot]` on some bit set, in a loop that advances slot
+        tests = [x for x in astq.walk(f["body"]) if x.get("k") == "CXXOperatorCallExpr" and x.get("oop") == "[]" and "dynamic_bitset" in (x.get("callee") or "") and _refs(x["c"][2], sdid)
+                 and _enclosing(parent, x, ("ForStmt", "WhileStmt", "DoStmt"))]
+        if not tests:
+            run.broken.append("%s: search for a free slot not recognised" % short(f))
+            continue
+        covered = set()
+        for t in tests:
+            b = astq.strip(t["c"][1])
+            if b.get("k") == "MemberExpr" and _refs(b, cls):
+                covered.add(b["member"])
+            elif b.get("k") == "DeclRefExpr" and b["ref"].get("storage") == "local":
+                ld = b["ref"]["did"]
+                loop = _enclosing(parent, t, ("ForStmt", "WhileStmt", "DoStmt"))[-1]
+                for n in astq.walk(f["body"]):
+                    if n.get("k") == "DeclStmt":
+                        for d in n["decls"]:
+                            if d["did"] == ld and d.get("init") is not None:
+                                covered |= {m for m in _members(d["init"]) if m in ("used_slots", "reserved_slots")} if _refs(d["init"], cls) else set()
+                    if n.get("k") == "CallExpr" and (n.get("callee") or "").endswith("detail::merge_into") and _refs(n["c"][2], ld) and _refs(n["c"][1], cls) \
+                            and n["l"] <= loop["l"] and all(any(e is g for g in _enclosing(parent, loop, ("IfStmt", "ForStmt", "WhileStmt", "CXXForRangeStmt")))
+                                                            for e in _enclosing(parent, n, ("IfStmt", "ForStmt", "WhileStmt", "CXXForRangeStmt"))):
+                        covered |= {m for m in _members(n["c"][1]) if m in ("used_slots", "reserved_slots")}
+        ok = covered >= {"used_slots", "reserved_slots"}
+        run.instance(rule, "%s: the slot taken is free in the class's used AND reserved slots" % short(f), (f["file"], st["l"]), ok=ok)
+        if not ok:
+            run.violation(rule, "compiler::assign_lattice_slots|free-slot", "the search for a free slot consults %s only: a slot already %s can be handed out again" % (
+                sorted(covered) or "neither set", "reserved by a derived class's method" if "reserved_slots" not in covered else "used in this class"), (f["file"], st["l"]))
+        # the search stops at the first clear bit: break/exit on `!bits[slot]`
+        t = tests[0]
+        loop = _enclosing(parent, t, ("ForStmt", "WhileStmt", "DoStmt"))[0]
+        iff = _enclosing(parent, t, ("IfStmt",))
+        stop_ok = False
+        if iff and _in_subtree(loop, iff[0]):
+            c = astq.strip(iff[0]["cond"])
+            neg = c.get("k") == "UnaryOperator" and c.get("op") == "!"
+            brk = any(x.get("k") == "BreakStmt" for x in astq.walk(iff[0].get("then")))
+            brk_else = iff[0].get("else") is not None and any(x.get("k") == "BreakStmt" for x in astq.walk(iff[0]["else"]))
+            stop_ok = (neg and brk) or (not neg and brk_else)
+        elif loop.get("cond") is not None and _in_subtree(loop["cond"], t):
+            stop_ok = True      # `while (slot < n && bits[slot]) ++slot;`
+            c = loop["cond"]
+            if any(x.get("k") == "UnaryOperator" and x.get("op") == "!" and _in_subtree(x, t) for x in astq.walk(c)):
+                stop_ok = False
+        run.instance(rule, "%s: the search stops at a slot whose bit is clear" % short(f), (f["file"], t["l"]), ok=stop_ok)
+        if not stop_ok:
+            run.violation(rule, "compiler::assign_lattice_slots|search-stop", "the search does not stop on a clear bit (`%s`)" % astq.text(iff[0]["cond"] if iff else loop.get("cond"))[:80], (f["file"], t["l"]))
+        # the same slot is marked in both of the class's sets
+        sb = [n for n in astq.walk(f["body"]) if n.get("k") == "CallExpr" and (n.get("callee") or "").endswith("detail::set_bit") and _refs(n["c"][1], cls)]
+        marked = {m for n in sb for m in _members(n["c"][1]) if _refs(n["c"][2], sdid) and astq.strip(n["c"][2]).get("k") == "DeclRefExpr"}
+        okm = marked >= {"used_slots", "reserved_slots"}
+        run.instance(rule, "%s: the slot stored in the method is the one marked used and reserved in the class" % short(f), (f["file"], st["l"]), ok=okm)
+        if not okm:
+            run.violation(rule, "compiler::assign_lattice_slots|mark", "set_bit marks %s with the chosen slot, both used_slots and reserved_slots are needed" % (sorted(marked) or "nothing"), (f["file"], st["l"]))
